@@ -55,6 +55,19 @@ def run(tier, rep, ev):
         add(sizes=sizes, mode="thread", schedule=[last] * len(sizes[-1]), sink="factory", callback="fast",
             targets=[f"f{last}/m{i}-ü.bin" for i in range(1, len(sizes[-1]) + 1)])
         add(sizes=sizes, mode="seq", sink="factory", callback="slow", targets=[f"f1/m{len(sizes[0])}-ü.bin"])
+        # ... and skipped SUCCESSORS: members with streams behind the last selected one of their folder are passed over too,
+        # and whatever is started must be ended (seed C18-7)
+        add(sizes=sizes, mode="seq", sink="factory", callback="fast", targets=["f1/m1-ü.bin"])
+        add(sizes=sizes, mode="thread", schedule=sch[len(sch) // 2], sink="factory", callback="slow",
+            targets=[f"f{j}/m1-ü.bin" for j in range(1, last + 1)])
+        add(sizes=sizes, mode="thread", schedule=sch[-1], sink="path", callback="fast", targets=[f"f{last}/m1-ü.bin"])
+    # a reporter that has caught up with the workers and is held up inside its LAST handlers only: close() must still wait for
+    # it (an empty queue means fetched, not delivered; seed C18-8)
+    for k, name in enumerate(shapes):
+        for cbm in ("slowpost", "slowlast"):
+            add(sizes=SHAPES[name], mode="seq", sink="factory", callback=cbm, seed=k)
+            add(sizes=SHAPES[name], mode="thread", sink="path" if k % 2 else "factory", callback=cbm, seed=k + 1)
+            add(sizes=SHAPES[name], mode="seq", sink="factory", callback=cbm, seed=k, targets=["f1/m1-ü.bin"])
     # two extractions with a callback in one session (reset in between)
     for k, name in enumerate(shapes):
         add(sizes=SHAPES[name], mode="thread" if k % 2 else "seq", sink="factory", callback="slow", repeat=2, seed=k)
